@@ -23,6 +23,7 @@ Inductive nspec_c :=
 | SArr (ts : list Q)
 | SAffine (c0 : Q) (cs : list Q)                    (* t(p) = c0 + cs . p *)
 | SStep (ax : nat) (x0 lo hi : Q)                   (* t(p) = lo if p[ax] < x0 else hi *)
+| SSumSq (c0 : Q)                                   (* t(p) = c0 + p . p  (a reduction over the point) *)
 | SField (p1 p2 : list Q) (ns : list Z) (vals : list Q).
       (* a one-component Field on its own mesh: t(p) = value of the cell of that mesh containing p *)
 
@@ -69,6 +70,7 @@ Definition to_nspec (s : nspec_c) : nspec QK :=
   | SConst t => @NConst QK (qc t)
   | SArr ts => @NArr QK (qcl ts)
   | SAffine c0 cs => @NFun QK (fun p => qc (c0 + dotq cs p))
+  | SSumSq c0 => @NFun QK (fun p => qc (c0 + dotq p p))
   | SStep ax x0 lo hi => @NFun QK (fun p => qc (if Qltb (nth ax p 0) x0 then lo else hi))
   end.
 
